@@ -284,6 +284,71 @@ theorem horizon_break_needs_sorted_log :
     memScan "" 5 0 log ≠ log.filter (fun c => memTypeMatch "" c && decide (c.ts + 0 ≤ 5)) := by
   decide
 
+/-! ## the two backends read the same changelog the same way -/
+
+theorem prefix_colon : ∀ (a b r : List Char), ':' ∉ a → ':' ∉ b →
+    ((a ++ [':']).isPrefixOf (b ++ ':' :: r) = true ↔ a = b) := by
+  intro a
+  induction a with
+  | nil =>
+    intro b r _ hb
+    cases b with
+    | nil => simp [List.isPrefixOf]
+    | cons x b' =>
+      have : x ≠ ':' := fun e => hb (by simp [e])
+      simp [List.isPrefixOf, Ne.symm this]
+  | cons y a' ih =>
+    intro b r ha hb
+    have hy : y ≠ ':' := fun e => ha (by simp [e])
+    cases b with
+    | nil => simp [List.isPrefixOf, hy]
+    | cons x b' =>
+      have ha' : ':' ∉ a' := fun h => ha (by simp [h])
+      have hb' : ':' ∉ b' := fun h => hb (by simp [h])
+      simp only [List.cons_append, List.isPrefixOf_cons_cons, Bool.and_eq_true, beq_iff_eq, List.cons.injEq]
+      rw [ih b' r ha' hb']
+
+/-- for type names without ':' memory's `HasPrefix(object, type+":")` is type equality (what sqlite's
+    `object_type = ?` tests) -/
+theorem memTypeMatch_plain (typ : String) (c : Change) (h0 : typ ≠ "") (h1 : ':' ∉ typ.toList)
+    (h2 : ':' ∉ c.tuple.objType.toList) : memTypeMatch typ c = (c.tuple.objType == typ) := by
+  unfold memTypeMatch hasPrefix buildObject
+  have e0 : (typ == "") = false := by simpa using h0
+  rw [e0, Bool.false_or, Bool.eq_iff_iff]
+  simp only [String.toList_append]
+  have : ":".toList = [':'] := by decide
+  rw [this, List.append_assoc, List.singleton_append, prefix_colon _ _ _ h1 h2, beq_iff_eq, String.toList_inj]
+  exact eq_comm
+
+/-- **backends_read_alike.** On a store that satisfies the history invariants (ranks, sorted timestamps) and whose
+    type names contain no ':', memory.ReadChanges and sqlite.ReadChanges return the same changes in the same order
+    for every type filter, horizon and direction. -/
+theorem backends_read_alike (s : StoreState) (hi : Inv s) (t : Nat) (hts : TsInv s t) (typ : String) (now horizon : Nat)
+    (desc : Bool) (h1 : ':' ∉ typ.toList) (h2 : ∀ c ∈ s.changes, ':' ∉ c.tuple.objType.toList) :
+    memReadChanges s typ now horizon desc = sqlReadChanges s typ now horizon desc := by
+  have hf : s.changes.filter (fun c => memTypeMatch typ c && decide (c.ts + horizon ≤ now))
+          = s.changes.filter (fun c => decide (c.ts + horizon ≤ now) && (typ == "" || c.tuple.objType == typ)) := by
+    apply List.filter_congr
+    intro c hc
+    rw [Bool.and_comm]
+    congr 1
+    by_cases h0 : typ = ""
+    · subst h0; simp [memTypeMatch]
+    · rw [memTypeMatch_plain typ c h0 h1 (h2 c hc)]
+      have : (typ == "") = false := by simpa using h0
+      simp [this]
+  cases desc with
+  | false =>
+    rw [(desc_is_reverse_sql s hi typ now horizon).2]
+    unfold memReadChanges
+    rw [horizon_break_is_filter typ now horizon s.changes hts.1, hf]
+    simp
+  | true =>
+    rw [(desc_is_reverse_sql s hi typ now horizon).1, (desc_is_reverse_sql s hi typ now horizon).2, desc_is_reverse_mem]
+    unfold memReadChanges
+    rw [horizon_break_is_filter typ now horizon s.changes hts.1, hf]
+    simp
+
 /-! ## non-vacuity -/
 
 def w1 : TupleRec := { objType := "doc", objId := "1", relation := "viewer", user := "user:a" }
